@@ -182,6 +182,15 @@ func c16r1(c *Ctx) {
 							if !ok {
 								continue
 							}
+							if hfa, ok := st.Addr.(*ssa.FieldAddr); ok {
+								// a method helper on the same object (`e.setGasCost(gasCost)` storing into e's fields)
+								if hp, ok := hfa.X.(*ssa.Parameter); ok {
+									if a, _ := sub.actual(hp); a != nil && a == ssa.Value(set.Params[0]) {
+										copies = append(copies, copyOp{fieldName(hfa.X.Type(), hfa.Field), sub.Term(st.Val), x, st})
+									}
+								}
+								continue
+							}
 							par, ok := st.Addr.(*ssa.Parameter)
 							if !ok {
 								continue
@@ -568,7 +577,7 @@ func includesCost(e *Env, v ssa.Value, costTerm string, assumed map[*ssa.Phi]boo
 		return true
 	case *ssa.Call:
 		// an extracted cost computation: every return of the helper includes the cost
-		if sc := x.Call.StaticCallee(); sc != nil && len(sc.Blocks) > 0 && sc.Pkg != nil && strings.HasPrefix(sc.Pkg.Pkg.Path(), modPath) && e.depth < 4 && x.Call.Signature().Results().Len() == 1 {
+		if sc := x.Call.StaticCallee(); sc != nil && len(sc.Blocks) > 0 && sc.Pkg != nil && strings.HasPrefix(sc.Pkg.Pkg.Path(), modPath) && e.depth < maxDepth && x.Call.Signature().Results().Len() == 1 {
 			sub := e.Sub(x, sc)
 			n := 0
 			for _, r := range returnsOf(sc) {
